@@ -612,6 +612,16 @@ func (r *Runner) step(st Obj) error {
 		for _, f := range AsList(st["fins"]) {
 			op.Finalizers = append(op.Finalizers, AsStr(f))
 		}
+		if op.Name == "*" {
+			// every object of that resource in the namespace (names that are not known when the scenario is written:
+			// ControllerRevisions are named by a hash)
+			for _, n := range r.srv.NamesOf(op.ResKey, op.NS) {
+				o2 := op
+				o2.Name = n
+				r.srv.Env(o2)
+			}
+			return nil
+		}
 		r.srv.Env(op)
 		return nil
 	case "deliver":
